@@ -270,6 +270,8 @@ impl Variant {
             },
             Self::VLong(l_left) => match other {
                 Self::VLong(l_right) => checked_long(l_left - l_right),
+                // not via `-(right - left)`: that overflows at the LONG minimum
+                Self::VInteger(i_right) => checked_long(l_left - i_right as i64),
                 _ => other.minus(self).and_then(|x| x.negate()),
             },
             _ => Err(VariantError::TypeMismatch),
